@@ -5,6 +5,7 @@ package main
 import (
 	"fmt"
 	"go/token"
+	"go/types"
 	"sort"
 	"strings"
 
@@ -421,6 +422,7 @@ func checkBracketGuards(p *Program, r *Report, fr *ssa.Function) {
 		}
 	}
 	r.Floor("R18.3", "guarded bracket updates", n, 1)
+	checkCandidateGuards(p, r, fr)
 }
 
 func keysOf(m map[string]bool) []string {
@@ -430,4 +432,106 @@ func keysOf(m map[string]bool) []string {
 	}
 	sort.Strings(out)
 	return out
+}
+
+// checkCandidateGuards (R18.4): where a computed candidate is admitted to the list of trial points only under
+// comparisons with other values (the Newton step "if it lies inside the bracket"), every such comparison holds on
+// its TRUE edge. An ordered comparison is false for not-a-number, so `x > lo && x < hi` keeps a NaN step out, while
+// the negated form `!(x <= lo || x >= hi)` lets it in: the function is then evaluated at NaN — outside the interval.
+func checkCandidateGuards(p *Program, r *Report, fr *ssa.Function) {
+	r.Rule("R18.4", "admission tests reject not-a-number: in FindRoot, a value appended to the trial points inside a block guarded by ordered comparisons (<, <=, >, >=) of that very value is guarded by their true edges only — a false edge of an ordered comparison also holds for NaN, and a NaN trial is an evaluation outside the interval")
+	n := 0
+	for _, c := range callsIn(fr) {
+		bi, ok := c.Common().Value.(*ssa.Builtin)
+		if !ok || bi.Name() != "append" || len(c.Common().Args) != 2 {
+			continue
+		}
+		// the appended elements: stores into the variadic literal
+		var elems []ssa.Value
+		for _, ref := range refsDeep(vecBase(c.Common().Args[1])) {
+			ia, ok := ref.(*ssa.IndexAddr)
+			if !ok {
+				continue
+			}
+			for _, r2 := range refs(ia) {
+				if st, ok := r2.(*ssa.Store); ok && st.Addr == ssa.Value(ia) {
+					if b, isB := st.Val.Type().Underlying().(*types.Basic); isB && b.Info()&types.IsFloat != 0 {
+						elems = append(elems, st.Val)
+					}
+				}
+			}
+		}
+		for _, v := range elems {
+			judged, bad := false, ""
+			// a condition kept in a boolean (`outside := a || b; if !outside`) is a phi of the comparisons: the ways it
+			// can take the required value, each with the guards of the edge it arrives by
+			var gs []Guard
+			var open func(g Guard, depth int)
+			open = func(g Guard, depth int) {
+				ph, isPhi := g.Cond.(*ssa.Phi)
+				if !isPhi || depth > 3 {
+					gs = append(gs, g)
+					return
+				}
+				for i, e := range ph.Edges {
+					if i >= len(ph.Block().Preds) {
+						continue
+					}
+					if k, isC := e.(*ssa.Const); isC {
+						if k.Value != nil && (k.Value.String() == "true") != g.Val {
+							continue // this way in gives the other value
+						}
+						for _, pg := range guardsAt(ph.Block().Preds[i]) {
+							open(pg, depth+1)
+						}
+						if iff, ok := ph.Block().Preds[i].Instrs[len(ph.Block().Preds[i].Instrs)-1].(*ssa.If); ok {
+							pr := ph.Block().Preds[i]
+							if pr.Succs[0] != pr.Succs[1] {
+								cnd, val := normCond(iff.Cond, pr.Succs[0] == ph.Block())
+								open(Guard{Cond: cnd, Val: val, If: iff}, depth+1)
+							}
+						}
+						continue
+					}
+					cnd, val := normCond(e, g.Val)
+					open(Guard{Cond: cnd, Val: val}, depth+1)
+					for _, pg := range guardsAt(ph.Block().Preds[i]) {
+						open(pg, depth+1)
+					}
+				}
+			}
+			for _, g := range guardsAt(c.Block()) {
+				open(g, 0)
+			}
+			for _, g := range gs {
+				bo, ok := g.Cond.(*ssa.BinOp)
+				if !ok {
+					continue
+				}
+				switch bo.Op {
+				case token.LSS, token.LEQ, token.GTR, token.GEQ:
+				default:
+					continue
+				}
+				if !(sameValue(bo.X, v) || sameValue(bo.Y, v)) {
+					continue
+				}
+				judged = true
+				if !g.Val {
+					bad = fmt.Sprintf("the candidate is admitted on the false edge of `%s` at %s", bo.Op, p.Pos(bo.Pos()))
+				}
+			}
+			if !judged {
+				continue
+			}
+			n++
+			key := fmt.Sprintf("util/fn.FindRoot:candidate#%d", n)
+			if bad != "" {
+				r.Fail("R18.4", key, p.Pos(c.Pos()), bad+": an ordered comparison is false for not-a-number, so a NaN step (a derivative that is NaN, 0/0) passes this test, is evaluated — outside the interval — and can be returned as the root")
+			} else {
+				r.OK("R18.4", "util/fn.FindRoot: a guarded candidate is admitted only on true edges of its comparisons (NaN is kept out)")
+			}
+		}
+	}
+	r.Analysed["R18.4 guarded candidates"] = n
 }
